@@ -152,6 +152,7 @@ def run_C15(case):
 
 def gen_C15(rng, tier, seed):
     g = Gen(rng, "C15", tier, allow_restart=False)
+    g.weights["clear"] = rng.choice([0, 0.3, 0.8])
     if g.nops > 40:
         g.nops = 40
     c = g.case(seed)
